@@ -352,6 +352,9 @@ def c03(tier, seed):
     # platform errors (error.execution) are internal events like any other: content blocks that raise, send to #_internal
     # and fail in between (the C08 family) exercise the FIFO order of mixed enqueues
     docs += docgen.c08_docs(random.Random(seed + 7), 4 if tier == "quick" else 16, max_variants=5)
+    # guards that fail to evaluate queue error.execution during the *selection* (outside any microstep): the macrostep is not
+    # over while that event waits
+    docs += docgen.guard_error_docs()
     return core_check("C03", tier, seed, docs,
                       {"rtc-eventless-first", "rtc-iq-empty", "rtc-fifo", "rtc-idle-with-iq", "xorder", "noop"},
                       max_ev=ev, max_q=1, modes=("preload", "step"),
@@ -795,6 +798,24 @@ def c18(tier, seed):
         text, _ = syntaxgen.serialize(root, "canon")
         jobs.append({"id": di + 1, "xml": text, "max_writes": 400 if tier == "quick" else 3000})
         texts[di + 1] = text
+    # directed images: one block of executable content only (the blocks of a model are written in hash order), so that the image
+    # *ends* with a given kind of field - a long / short / multi-byte / 12-bit-length string, a number
+    tails = ['<log expr="1"/><raise event="machine.has.completed.the.first.step"/>', '<raise event="done"/>',
+             '<raise event="gr\u00f6\u00dfe.\u00fcberschritten.f\u00fcr.das.ger\u00e4t.\u65e5\u672c\u8a9e"/>',
+             '<raise event="%s"/>' % ".".join(["tok%d" % q for q in range(70)]),
+             '<foreach array="[1]" item="a_rather_long_item_name_for_the_loop"></foreach>',
+             '<foreach array="[1]" item="it" index="a_rather_long_index_name_for_the_loop"></foreach>',
+             '<log label="a label that is longer than fifteen bytes" expr="\'an expression text that is longer than fifteen bytes\'"/>',
+             '<script>x = \'a script text that is longer than fifteen bytes\'</script>', '<cancel sendid="a_send_id_that_is_longer_than_fifteen_bytes"/>',
+             '<assign location="x" expr="\'a value text that is longer than fifteen bytes\'"/>',
+             '<send event="an.event.name.longer.than.fifteen.bytes" target="#_internal"/>']
+    for tl in tails:
+        for where in ("onentry", "onexit"):
+            jid = len(jobs) + 1
+            text = ('<scxml xmlns="http://www.w3.org/2005/07/scxml" version="1.0" datamodel="rfsm-expression"><datamodel><data id="x" expr="0"/>'
+                    '</datamodel><state id="s"><%s>%s</%s></state></scxml>' % (where, tl, where))
+            jobs.append({"id": jid, "xml": text, "max_writes": 400 if tier == "quick" else 3000})
+            texts[jid] = text
     rc, res, tail = run_simple_jobs("cut", jobs, wd, "cut")
     if rc != 0:
         raise ToolError("vh cut failed: " + tail)
@@ -855,7 +876,7 @@ ERRX = "nope_undefined.q"
 def odd_docs(dm):
     """-> list of (name, xml, {event: kind}, init_kind)"""
     hdr = '<scxml xmlns="http://www.w3.org/2005/07/scxml" version="1.0" datamodel="%s"%s>'
-    dmdecl = '<datamodel><data id="x" expr="0"/><data id="loc" expr="0"/><data id="sv" expr="\'scxml\'"/></datamodel>'
+    dmdecl = '<datamodel><data id="x" expr="0"/><data id="loc" expr="0"/><data id="sv" expr="\'scxml\'"/><data id="arrv" expr="[1,2,3]"/></datamodel>'
     probe = '<transition event="probe"><script>mark(\'alive\')</script></transition>'
     docs = []
 
@@ -922,6 +943,13 @@ def odd_docs(dm):
         ("ok", '<raise event="error.execution"/>'),
         ("cond", '<transition event="EVENT" cond=%s target="s"/>' % E),
         ("ok", '<log expr="1"/><script>mark(\'x\', x)</script>'),
+        # the iterated collection used again inside the loop (W3C test 525 does this), changed inside the loop, used as its own item
+        ("ok", '<foreach array="arrv" item="it" index="ix"><assign location="x" expr="arrv[ix]"/></foreach>'),
+        ("ok", '<foreach array="arrv" item="it"><foreach array="arrv" item="it2"><assign location="x" expr="it + it2"/></foreach></foreach>'),
+        ("free", '<foreach array="arrv" item="it"><assign location="arrv" expr="[9]"/></foreach>'),
+        ("free", '<foreach array="arrv" item="arrv"><assign location="x" expr="1"/></foreach>'),
+        ("free", '<foreach array="arrv" item="it" index="arrv"><assign location="x" expr="1"/></foreach>'),
+        ("ok", '<assign location="x" expr="x"/><assign location="arrv" expr="arrv"/>'),
     ]
     doc("content-odd", content)
     doc("data-odd", [("ok", '<raise event="a"/>')], init_kind="data",
@@ -1188,14 +1216,16 @@ def run_scen_jobs(jobs, wd, name="scen", threads=4, timeout=1800, isolate=False)
     return res
 
 
+# (the catch-all takes external events only; every macrostep queues an internal event that matches nothing - 'zz.note' - before
+# the one that ends it: a macrostep that is declared finished after such an event would overlap with the next external event)
 C13_CONSUMER = """<scxml xmlns="http://www.w3.org/2005/07/scxml" version="1.0" datamodel="rfsm-expression" name="consumer">
 <datamodel><data id="cnt" expr="0"/></datamodel>
 <state id="s">
  <transition event="follow"><script>mark('E', _event.data.n)</script></transition>
  <transition event="kick">%s<script>mark('B', _event.name)</script>
    <send target="#_internal" event="follow"><param name="n" expr="_event.name"/></send></transition>
- <transition event="*"><script>mark('B', _event.name)</script><assign location="cnt" expr="cnt + 1"/>
-   <send target="#_internal" event="follow"><param name="n" expr="_event.name"/></send></transition>
+ <transition event="*" cond="_event.type == 'external'"><script>mark('B', _event.name)</script><assign location="cnt" expr="cnt + 1"/>
+   <raise event="zz.note"/><send target="#_internal" event="follow"><param name="n" expr="_event.name"/></send></transition>
 </state></scxml>"""
 
 # consumer that also invokes a child (same invoke id on every entry of state 'on'); the child sends m events to its parent
@@ -1207,8 +1237,8 @@ C13_CONSUMER_INV = """<scxml xmlns="http://www.w3.org/2005/07/scxml" version="1.
  <transition event="follow"><script>mark('E', _event.data.n)</script></transition>
  <transition event="kick"><script>mark('B', _event.name)</script>
    <send target="#_internal" event="follow"><param name="n" expr="_event.name"/></send></transition>
- <transition event="*"><script>mark('B', _event.name)</script><assign location="cnt" expr="cnt + 1"/>
-   <send target="#_internal" event="follow"><param name="n" expr="_event.name"/></send></transition>
+ <transition event="*" cond="_event.type == 'external'"><script>mark('B', _event.name)</script><assign location="cnt" expr="cnt + 1"/>
+   <raise event="zz.note"/><send target="#_internal" event="follow"><param name="n" expr="_event.name"/></send></transition>
  <state id="off"><transition event="w.on" target="on"><script>mark('B', _event.name)</script><assign location="g" expr="g + 1"/>
    <send target="#_internal" event="follow"><param name="n" expr="_event.name"/></send></transition></state>
  <state id="on"><invoke type="scxml" id="w"><param name="gen" expr="g"/><content>%s</content></invoke>
@@ -1382,6 +1412,7 @@ PAYLOADS = {
     "none": ("", "null"),
     "params": ('<param name="p1" expr="v"/><param name="p2" expr="\'two\'"/>', "{p1:7,p2:two}"),
     "namelist": ("NAMELIST", "{v:7}"),
+    "namelist+param": ('NAMELIST<param name="p1" expr="\'one\'"/>', "{p1:one,v:7}"),
     "contentexpr": ('<content expr="v + 1"/>', "8"),
     "contenttext": ("<content>hello world</content>", "hello world"),
 }
@@ -1397,9 +1428,9 @@ def c15_node(name, dm, cases, peers, child_xml=None, forward_init=False):
     for (k, form, arg, payload) in cases:
         body, _ = PAYLOADS[payload]
         attrs = ' event="req.%s.%d" id="sid%s%d"' % (name, k, name, k)
-        if body == "NAMELIST":
+        if body.startswith("NAMELIST"):
             attrs += ' namelist="v"'
-            body = ""
+            body = body[len("NAMELIST"):]
         if form == "internal":
             attrs += ' target="#_internal"'
         elif form == "sid":
@@ -3036,8 +3067,8 @@ def c10(tier, seed):
             continue
         exp = enc_parse(e)
         bad = None
-        for path in ("a", "b1", "b2"):
-            got = r[path]
+        for path in ("a", "b1", "b2", "d"):
+            got = r.get(path, r["b1"])
             if path != "a" and exp[0] in ("arr", "map"):
                 continue       # the datamodel refuses to return collections; only the parser path is compared
             try:
@@ -3183,7 +3214,12 @@ def structured_inputs(tier):
                "-9223372036854775808 / -1", "-9223372036854775808 * -1", "0 - -9223372036854775808", "1 / 0", "0 / 0", "0.0 % 0",
                "length(n)", "indexOf('a')", "toString(toString)", "m.c[5]", "arr[-1]", "arr[1e30]", "arr[0.5]", "{1:2}[1]",
                "ro = 1", "ro ?= 1", "In('x')", "'\\u12'", "'\\ud800'", "\u00e9 ?= 1; \u00e9 + 1", "1 =", "1 <", "n !", "1 ?",
-               "1 >", "n ?=", "arr[0] = arr; arr == arr", "arr[0] = arr; toString(arr)", "m.b = m; m == m"]
+               "1 >", "n ?=", "arr[0] = arr; arr == arr", "arr[0] = arr; toString(arr)", "m.b = m; m == m",
+               # an operand that is an element / member of the other operand
+               "a ?= [[1]]; a == a[0]", "a ?= [[1]]; a[0] == a", "a ?= [[1]]; a != a[0]", "a ?= [[1]]; a + a[0]", "a ?= [[1]]; a[0] + a",
+               "a ?= [[1]]; a < a[0]", "a ?= [[1], 2]; a[0] == a[1]", "a ?= {'k': {'j': 1}}; a == a.k", "a ?= {'k': {'j': 1}}; a.k == a",
+               "a ?= {'k': {'j': 1}}; a + a.k", "a ?= {'k': {'j': 1}}; a.k + a", "a ?= {'k': [1]}; a.k == a", "a ?= [[[1]]]; a[0] == a[0][0]",
+               "a ?= [[1]]; a[0] & a", "a ?= [[1]]; a | a[0]", "a ?= [[1]]; a >= a[0]"]
     out += [("single", t) for t in singles]
     return out
 
